@@ -49,6 +49,8 @@ pub struct Ep {
     pub version: Option<[u8; 4]>,
     /// `ro` flag put on replies (None = key absent).
     pub ro: Option<i64>,
+    /// `ro` flag put on the replies to writes only.
+    pub ro_on_put_replies: Option<i64>,
     /// Other endpoints this one knows (indices into the net); None = all.
     pub knows: Option<Vec<usize>>,
     /// How many nodes it returns.
@@ -80,6 +82,7 @@ impl Ep {
             issue_token: true,
             version: Some(krpc::VERSION_RS),
             ro: None,
+            ro_on_put_replies: None,
             knows: None,
             k: 8,
             imm: BTreeMap::new(),
@@ -253,7 +256,8 @@ impl EpNet {
         if let Some(v) = e.version {
             top.push(("v", B::bytes(v)));
         }
-        if let Some(ro) = e.ro {
+        let is_write = matches!(qname.as_str(), "put" | "announce_peer" | "announce_signed_peer");
+        if let Some(ro) = e.ro.or(if is_write { e.ro_on_put_replies } else { None }) {
             top.push(("ro", B::Int(ro as i128)));
         }
         Some(crate::bencode::encode(&B::dict(top)))
